@@ -365,12 +365,14 @@ def run_case_here(case, outpath, scratch):
             pool = opp.FactoryFunctorPool(case["workers"],
                                           pw.HFactory(sh, quota, faults, case.get("end_delay", 0), case.get("begin_delay", 0),
                                                       start_method, plan_items),
-                                          context=ctx, work_queue_maxsize=wq, results_queue_maxsize=rq)
+                                          context=ctx, work_queue_maxsize=wq, results_queue_maxsize=rq,
+                                          join_timeout=case.get("join_timeout"))
         else:
             wcls = pw.WORKER_CLASS[start_method]
             workers = [wcls(sh, math.inf, faults.get(i), i, case.get("end_delay", 0),
                             case.get("begin_delay", 0) if i % 2 == 0 else 0, plan_items) for i in range(case["workers"])]
-            pool = opp.FunctorPool(workers, context=ctx, work_queue_maxsize=wq, results_queue_maxsize=rq)
+            pool = opp.FunctorPool(workers, context=ctx, work_queue_maxsize=wq, results_queue_maxsize=rq,
+                                   join_timeout=case.get("join_timeout"))
         state["pool"] = pool
         state["phase"] = "pool_enter"
         sh.log("pool_enter")
@@ -380,6 +382,22 @@ def run_case_here(case, outpath, scratch):
                 state["phase"] = "until_all_ready"
                 pool.until_all_ready()
                 sh.log("until_all_ready_return")
+            ready_stop = threading.Event()
+            if case.get("ready_during"):
+                # until_all_ready() called from a side thread WHILE calls run (and workers are being replaced)
+                def poll_ready():
+                    while not ready_stop.is_set():
+                        snap = list(pool.procs)
+                        try:
+                            pool.until_all_ready()
+                        except Exception as e:
+                            sh.log("ready_during_raise", exc=f"{type(e).__name__}: {e}")
+                            return
+                        # workers are identified by wid (assigned before a worker enters pool.procs); the pid of a freshly
+                        # forked replacement may not be visible yet in this thread although its begin() already ran
+                        sh.log("ready_during_return", wids=[getattr(p, "wid", None) for p in snap])
+                        time.sleep(0.01)
+                threading.Thread(target=poll_ready, name="vf:ready", daemon=True).start()
             for ci, call in enumerate(case["calls"]):
                 state["phase"] = "call"
                 state["call"] = ci
@@ -414,6 +432,7 @@ def run_case_here(case, outpath, scratch):
                     sh.log("until_all_ready_return")
                 if call.get("pause_after"):
                     sh.nap(call["pause_after"])
+            ready_stop.set()
             state["phase"] = "pool_exit"
             sh.log("pool_exit_enter", pids=[p.pid for p in pool.procs])
         state["pool"] = None
@@ -433,8 +452,11 @@ def run_case_here(case, outpath, scratch):
             try:
                 with open(f"/proc/{pid}/stat") as f:
                     s = f.read()
-                stt = s[s.rfind(")") + 2:].split()[0]
-                if stt not in ("Z", "X"):
+                fields = s[s.rfind(")") + 2:].split()
+                stt = fields[0]
+                # pid numbers are recycled quickly when 16 shards fork thousands of processes: only a process of OUR
+                # session (the case child called setsid) whose parent is this process is one of our workers
+                if stt not in ("Z", "X") and int(fields[3]) == os.getsid(0) and int(fields[1]) == os.getpid():
                     alive.append((pid, stt))
             except OSError:
                 pass
@@ -583,12 +605,14 @@ def run_case(case, scratch):
     t0 = time.monotonic()
     status = None
     while True:
+        # look without reaping: while the case child is an unreaped zombie its pid (= the process group id of the whole
+        # case) cannot be recycled, so the killpg below can never hit somebody else's group
         try:
-            r, st = os.waitpid(pid, os.WNOHANG)
+            info = os.waitid(os.P_PID, pid, os.WEXITED | os.WNOWAIT | os.WNOHANG)
         except ChildProcessError:
-            r, st = pid, 0
-        if r == pid:
-            status = st
+            info = True
+        if info:
+            status = 0
             break
         if time.monotonic() - t0 > limit:
             break
@@ -597,11 +621,12 @@ def run_case(case, scratch):
         os.killpg(pid, signal.SIGKILL)
     except (ProcessLookupError, PermissionError):
         pass
-    if status is None:
-        try:
-            os.waitpid(pid, 0)
-        except ChildProcessError:
-            pass
+    try:
+        _, st = os.waitpid(pid, 0)
+        if status is not None:
+            status = st
+    except ChildProcessError:
+        pass
     if os.path.exists(outpath):
         try:
             with open(outpath) as f:
@@ -726,13 +751,13 @@ def lifecycle_findings(case, result):
     """C04 oracle over the event log."""
     out = []
     ev = sorted(result.get("events", []), key=lambda e: e["seq"])
-    by_pid = {}
+    by_pid = {}     # keyed by (pid, wid): a pid number alone can be recycled within one run
     for e in ev:
         if e["ev"] in ("begin_enter", "begin_exit", "begin_raise", "item", "item_raise", "end_enter", "end_exit"):
-            by_pid.setdefault(e["pid"], []).append(e)
+            by_pid.setdefault((e["pid"], e.get("wid")), []).append(e)
     completed = result.get("status") == "completed"
     quota = case.get("quota")
-    for pid, es in by_pid.items():
+    for (pid, _w), es in by_pid.items():
         names = [e["ev"] for e in es]
         wid = es[0].get("wid")
         nb = names.count("begin_enter")
@@ -753,7 +778,7 @@ def lifecycle_findings(case, result):
             if any(n in ("item", "begin_enter", "begin_exit") for n in names[k + 1:]):
                 out.append(("event-after-end", f"worker wid={wid}: {names[k + 1:][:4]} logged after end()"))
         faulted = "begin_raise" in names or "item_raise" in names
-        if ne == 0 and (completed or faulted):
+        if ne == 0 and ((completed and not case.get("join_timeout")) or faulted):
             # a completed run joined every worker; a faulted worker is dead: both must have run end()
             out.append(("end-missing", f"worker wid={wid} pid={pid} ({'faulted' if faulted else 'joined'}) never ran end(); "
                         f"events {names[-4:]}"))
@@ -776,15 +801,31 @@ def lifecycle_findings(case, result):
         if entered and first_ready and case.get("ready_first"):
             pids0 = set(entered[0].get("pids") or [])
             for pid in pids0:
-                be = [e for e in by_pid.get(pid, []) if e["ev"] == "begin_exit"]
+                be = [e for k, es in by_pid.items() if k[0] == pid for e in es if e["ev"] == "begin_exit"]
                 if not be or be[0]["seq"] > first_ready["seq"]:
                     out.append(("ready-before-begin-finished",
                                 f"until_all_ready() returned (seq {first_ready['seq']}) before begin() of worker pid "
                                 f"{pid} completed"))
-    if completed:
+    if not case.get("faults"):
+        begun = {}
+        for e in ev:
+            if e["ev"] == "begin_exit":
+                begun.setdefault(e.get("wid"), e["seq"])
+        for e in ev:
+            if e["ev"] == "ready_during_return":
+                for wid in e.get("wids") or []:
+                    if wid is None or wid not in begun or begun[wid] > e["seq"]:
+                        out.append(("ready-before-begin-finished",
+                                    f"until_all_ready() (called while a call was running) returned at seq {e['seq']} although "
+                                    f"begin() of worker wid={wid}, which was in the pool when it was called, had not completed "
+                                    f"({'begin_exit never logged' if wid not in begun else 'begin_exit at seq %d' % begun[wid]})"))
+                        break
+            elif e["ev"] == "ready_during_raise":
+                out.append(("until-all-ready-raised", f"until_all_ready() raised {e.get('exc')}"))
+    if completed and not case.get("join_timeout"):
         exit_ret = next((e["seq"] for e in ev if e["ev"] == "pool_exit_return"), None)
         if exit_ret is not None:
-            for pid, es in by_pid.items():
+            for (pid, _w), es in by_pid.items():
                 ends = [e["seq"] for e in es if e["ev"] == "end_exit"]
                 if any(e["ev"] == "begin_enter" for e in es) and (not ends or ends[0] > exit_ret):
                     out.append(("worker-left-running", f"worker wid={es[0].get('wid')} pid={pid} had not finished end() "
